@@ -245,6 +245,14 @@ def run(ctx):
                 elif l == "X":
                     depth_now -= 1
             dist["depth>=4"] += maxd >= 4
+
+            def walk_nodes(ns, anc):
+                for n in ns:
+                    yield n, anc
+                    yield from walk_nodes(n["kids"], anc + [n["fn"]])
+            nodes = list(walk_nodes(roots, []))
+            dist["recursion"] += any(n["fn"] in anc for n, anc in nodes)
+            dist["zero_dur"] += any(n["t1"] is not None and n["t1"] == n["t0"] for n, anc in nodes)
             dist["overflow"] += maxd > ms
             dist["flush"] += "FLUSH" in c["script"]
             dist["open_at_end"] += depth_now > 0
